@@ -8,7 +8,8 @@ def generate() -> dict[str, str]:
     from exabgp.bgp.message.update.nlri.nlri import NLRI
     from exabgp.protocol.family import SAFI, Family
 
-    reg = sorted((int(a), int(s)) for a, s in NLRI.registered_nlri)
+    reg = sorted({(int(a), int(s)) for a, s in NLRI.registered_families})
+    assert {f'{a}/{s}' for a, s in NLRI.registered_families} == set(NLRI.registered_nlri), 'registry keys changed'
     size = sorted((int(a), int(s), [int(x) for x in nh], int(rd)) for (a, s), (nh, rd) in Family.size.items())
     safis = sorted({s for _, s in reg} | {s for _, s, _, _ in size})
     has_label = [s for s in safis if SAFI.from_int(s).has_label()]
